@@ -181,6 +181,8 @@ def run_case(case):
         op = None
         if N == 0 and x < 0.30:
             x = 0.35          # nothing to integrate: add instead
+        if x < 0.30 and not (sim.dt > 0 and sim.dt < 1e300):
+            sim.dt = dt0          # an adaptive integrator fed a degenerate state can leave dt=0/NaN; a user would reset it
         if x < 0.22:
             T = abs(sim.dt) * r.choice([1.5, 3.2, 7.9, 20.3]) if sim.integrator not in ('ias15', 'bs', 'trace', 'mercurius') else min(dt0, abs(sim.dt)) * r.choice([2.0, 5.5, 11.0])
             op = dict(op='integrate', T=abs(T), exact=r.choice([0, 1]))
